@@ -95,6 +95,18 @@ def pick_list(rng, pool, kmax=3):
     return out
 
 
+def rand_details(rng):
+    """run details that are part of a run's identity (exp_run_details.py), at any level"""
+    pool = {"iterations": [2, "3!", 7], "warmup": [0, 1, "2!"], "min_iteration_time": [0, 10, 75], "max_invocation_time": [100, 600, -1],
+            "ignore_timeouts": [True, False], "retries_after_failure": [0, 1, 3], "execute_exclusively": [True],
+            "parallel_interference_factor": [2.5, 1, 0.0]}
+    out = {}
+    for k, vs in pool.items():
+        if rng.random() < 0.2:
+            out[k] = rng.choice(vs)
+    return out
+
+
 def gen_config(rng, d):
     nb = rng.randint(1, 3)
     suite = {"gauge_adapter": "RebenchLog", "command": "%(benchmark)s i=%(input)s v=%(variable)s c=%(cores)s t=%(tag)s INV=%(invocation)s",
@@ -137,15 +149,23 @@ def gen_config(rng, d):
         execu["build"] = ["make vm"]
     if rng.random() < 0.3:
         execu["variable_values"] = pick_list(rng, FALSY + SCALARS, 2)
+    execu.update(rand_details(rng))
+    suite.update(rand_details(rng))
+    for k, b in enumerate(suite["benchmarks"]):
+        if isinstance(b, dict) and rng.random() < 0.5:
+            (nme, det), = b.items()
+            det.update(rand_details(rng))
+    exe_entry = {"suites": ["S"]}
+    exe_entry.update(rand_details(rng))
     raw = {"executors": {"E": execu}, "benchmark_suites": {"S": suite},
-           "experiments": {"X": {"executions": [{"E": {"suites": ["S"]}}]}}}
+           "experiments": {"X": dict({"executions": [{"E": exe_entry}]}, **rand_details(rng))}}
     if rng.random() < 0.4:
         raw["experiments"]["Y"] = {"executions": [{"E": {"suites": ["S"]}}], "description": "second"}
         if rng.random() < 0.6:
             # the same runs recorded in a second data file: loaded once per file, counted once
             raw["experiments"]["Y"]["data_file"] = os.path.join(d, "second.data")
     warm = rng.choice([0, 0, 1, 2])
-    raw["runs"] = {"warmup": warm}
+    raw["runs"] = dict(rand_details(rng), warmup=warm)
     if rng.random() < 0.3:
         raw["runs"]["max_invocation_time"] = rng.choice([10, 0, 300])
     if rng.random() < 0.3:
@@ -178,7 +198,9 @@ INV_RE = re.compile(r"INV=(\d+)")
 
 
 def run_key(r):
-    return repr((r.benchmark.name, r.benchmark.suite.name, type(r.cores).__name__, r.cores, type(r.input_size).__name__, r.input_size,
+    # runs of two experiments with different run details are different runs although they share a command line
+    det = json.dumps(r.benchmark.as_dict(), sort_keys=True, default=str)
+    return det + repr((r.benchmark.name, r.benchmark.suite.name, type(r.cores).__name__, r.cores, type(r.input_size).__name__, r.input_size,
                  type(r.var_value).__name__, r.var_value, r.tag, r.machine, r.benchmark.extra_args))
 
 
@@ -261,10 +283,11 @@ def histories_part(chk):
                               nruns * n1 - done1, s2.starts[:8])
                 ok = False
             state2 = states(s2)
+            warm_of = {run_key(r): (r.warmup_iterations or 0) for r in s2.run_objs}    # the run's effective warm-up (C02)
             for k, v in state2.items():
                 rec = recorded.get(k, [])
                 tot = [x for x in rec if x[2] == "total"]
-                warm = raw["runs"]["warmup"]
+                warm = warm_of[k]
                 smp = [x[4] for x in tot if x[1] > warm]
                 exp_state = (max([x[0] for x in rec] or [0]), len(smp), (sum(smp) / len(smp)) if smp else 0.0)
                 if v[0] != exp_state[0] or v[1] != exp_state[1] or not math.isclose(v[2], exp_state[2], rel_tol=1e-9, abs_tol=1e-6):
@@ -295,36 +318,46 @@ def histories_part(chk):
                 chk.violation("C07 a follow-up session with nothing to do leaves the file as it is", case, len(file2),
                               len(dh.read_bytes(data_file)))
             # ---- reloaded measurements per run = recorded (independent of the loader's own bookkeeping)
-            resl = dh.impl_load(raw, data_file, argv=["-in", str(n1)] + machine)
+            resl = dh.impl_load(raw, data_file, argv=["-in", str(n1)] + machine, watch="*")
             if resl.result != "ok":
                 chk.violation("C07 the data file is loadable", case, "ok", resl.result + repr(resl.exc))
                 continue
             hook_ms = {}
             for run, ms in resl.dps:
                 hook_ms.setdefault(run_key(run), []).extend(ms)
-            rows = file_rows(file2)
             for k in recorded:
-                have_hook = sorted((a, b, int(round(v * 1000000))) for a, b, c, u, v in recorded[k])
-                got_hook = sorted((a, b, v) for a, b, t, v in hook_ms.get(k, []))
+                # a run recorded in two data files is loaded once per file: compared as sets, the counts are in the statistics above
+                have_hook = sorted(set((a, b, int(round(v * 1000000))) for a, b, c, u, v in recorded[k]))
+                got_hook = sorted(set((a, b, v) for a, b, t, v in hook_ms.get(k, [])))
                 if have_hook != got_hook:
                     chk.violation("C07 reloaded measurements are those recorded for the same run", dict(case, run=k), have_hook[:8], got_hook[:8])
                     ok = False
                     break
-            by_rid = {}
-            for r in rows["data"]:
-                by_rid.setdefault(r[-1], []).append((int(r[0]), int(r[1]), r[4], r[3], round(float(r[2]), 6)))
-            rec_sorted = sorted(sorted(v) for v in recorded.values() if v)
-            if sorted(sorted(v) for v in by_rid.values()) != rec_sorted:
-                chk.violation("C07 criterion, unit, value, invocation and iteration of every measurement are read back from the file",
-                              case, rec_sorted[:2], sorted(sorted(v) for v in by_rid.values())[:2])
-                ok = False
-            if rows["run_ids"] != list(range(nruns)) or rows["bench_ids"] != list(range(len(rows["bench_ids"]))):
-                chk.violation("C07 record ids in a file are consecutive from 0, one run record per run", case,
-                              list(range(nruns)), (rows["run_ids"], rows["bench_ids"]))
-                ok = False
-            if len(set(rows["run_json"])) != len(rows["run_json"]):
-                chk.violation("C07 no run is described by two records", case, "distinct records", rows["run_json"][:4])
-                ok = False
+            # per data file: the rows of each run carry criterion and unit as printed; record ids are positions
+            def files_of(r):
+                out = set()
+                for p_ in r._persistence:
+                    fp_ = getattr(p_, "_file", p_)
+                    out.add(getattr(fp_, "_data_filename", None))
+                return out
+            for f in sorted({x for r in s2.run_objs for x in files_of(r) if x}):
+                runs_f = [r for r in s2.run_objs if f in files_of(r)]
+                rows = file_rows(dh.read_bytes(f))
+                by_rid = {}
+                for r in rows["data"]:
+                    by_rid.setdefault(r[-1], []).append((int(r[0]), int(r[1]), r[4], r[3], round(float(r[2]), 6)))
+                rec_sorted = sorted(sorted(recorded.get(run_key(r), [])) for r in runs_f if recorded.get(run_key(r)))
+                if sorted(sorted(v) for v in by_rid.values()) != rec_sorted:
+                    chk.violation("C07 criterion, unit, value, invocation and iteration of every measurement are read back from the file",
+                                  dict(case, file=os.path.basename(f)), rec_sorted[:2], sorted(sorted(v) for v in by_rid.values())[:2])
+                    ok = False
+                if rows["run_ids"] != list(range(len(runs_f))) or rows["bench_ids"] != list(range(len(rows["bench_ids"]))):
+                    chk.violation("C07 record ids in a file are consecutive from 0, one run record per run", dict(case, file=os.path.basename(f)),
+                                  list(range(len(runs_f))), (rows["run_ids"], rows["bench_ids"]))
+                    ok = False
+                if len(set(rows["run_json"])) != len(rows["run_json"]):
+                    chk.violation("C07 no run is described by two records", dict(case, file=os.path.basename(f)), "distinct records", rows["run_json"][:4])
+                    ok = False
             # ---- session 4: nothing again
             s4 = one(n1, "final")
             nses += 1
